@@ -593,6 +593,11 @@ class Engine:
         from annet import cli_args, filtering
         self.api, self.cli_args = api, cli_args
         self.filterer = filtering.filterer_connector.get()
+        # compile the shipped rulebooks once, in the engine process: run children are forked from it
+        from annet import rulebook
+        from annet.annlib.netdev.views.hardware import HardwareView
+        for m in HUAWEI_MODELS + CISCO_MODELS:
+            rulebook.get_rulebook(HardwareView(m, None))
 
     @contextlib.contextmanager
     def _captured(self):
